@@ -335,6 +335,18 @@ func sgGenFor(prop string) func(seed uint64, idx, total int, tier string) any {
 						ops = append(ops, sgOp{Kind: "remote-raw", Peer: p, A: 2}) // an answer from the wrong side
 					}
 					ops = append(ops, sgOp{Kind: "setlocal", Peer: p, A: vfPick(r, []int{1, 2, 2})})
+				case x < 18 && prop != "C02" && r.Bool(0.5):
+					// a signaling channel that delivers twice: a complete exchange whose offer and answer stay
+					// in the inbox, then one of them (byte for byte the current remote description) arrives again
+					q := 1 - p
+					ops = append(ops, sgOp{Kind: "offer", Peer: p}, sgOp{Kind: "setlocal", Peer: p, A: -1}, sgOp{Kind: "deliver", Peer: q, A: 1 << 20, B: 1},
+						sgOp{Kind: "answer", Peer: q}, sgOp{Kind: "setlocal", Peer: q, A: -1}, sgOp{Kind: "deliver", Peer: p, A: 1 << 20, B: 1})
+					if r.Bool(0.6) {
+						ops = append(ops, sgOp{Kind: "deliver", Peer: p, A: 1 << 20, B: 1}) // the answer again
+					}
+					if r.Bool(0.5) {
+						ops = append(ops, sgOp{Kind: "deliver", Peer: q, A: 1 << 20, B: 1}) // the offer again
+					}
 				case x < 17 && prop != "C02":
 					// an offerer receiving provisional answers, then more of them / the final answer
 					ops = append(ops, sgOp{Kind: "createdc", Peer: p}, sgOp{Kind: "offer", Peer: p}, sgOp{Kind: "setlocal", Peer: p, A: -1}, sgOp{Kind: "foreign-answer", Peer: p, A: r.Intn(8), B: 1})
@@ -487,11 +499,28 @@ func sgGenFor(prop string) func(seed uint64, idx, total int, tier string) any {
 					sgOp{Kind: "offer", Peer: p}, sgOp{Kind: "setlocal", Peer: p, A: -1}, sgOp{Kind: "foreign-answer", Peer: p, A: r.Intn(8)},
 					sgGenMedia(r, p), sgOp{Kind: "offer", Peer: p})
 			}
+			if (prop == "C06" || prop == "C09") && r.Bool(0.15) {
+				// an established session is renegotiated to add something (its first data channel, a
+				// transceiver); while that offer is pending another transceiver is added and offered
+				p := r.Intn(2)
+				ops = append(ops, sgOp{Kind: "addtrack", Peer: p, A: r.Intn(2)})
+				ops = sgExchange(ops, p)
+				if r.Bool(0.7) {
+					ops = append(ops, sgOp{Kind: "createdc", Peer: p})
+				} else {
+					ops = append(ops, sgOp{Kind: "addtransceiver", Peer: p, A: r.Intn(2), B: r.Intn(4)})
+				}
+				ops = append(ops, sgOp{Kind: "offer", Peer: p}, sgOp{Kind: "setlocal", Peer: p, A: -1},
+					sgOp{Kind: "addtransceiver", Peer: p, A: r.Intn(2), B: r.Intn(4)}, sgOp{Kind: "offer", Peer: p},
+					sgOp{Kind: "deliver", Peer: 1 - p}, sgOp{Kind: "answer", Peer: 1 - p}, sgOp{Kind: "setlocal", Peer: 1 - p, A: -1}, sgOp{Kind: "deliver", Peer: p},
+					sgOp{Kind: "offer", Peer: p})
+				n = len(ops) + r.Range(0, 3)
+			}
 			if (prop == "C06" || prop == "C09") && r.Bool(0.35) {
 				p := r.Intn(2)
 				if r.Bool(0.5) {
 					// answer a foreign offer with unusual mids, then add a data channel / transceiver and offer
-					ops = append(ops, sgOp{Kind: "foreign-offer", Peer: p, A: r.Intn(8)}, sgOp{Kind: "answer", Peer: p}, sgOp{Kind: "setlocal", Peer: p, A: -1},
+					ops = append(ops, sgOp{Kind: "foreign-offer", Peer: p, A: r.Intn(8), S: vfPick(r, []string{"", "", "text", "text", "nodir"})}, sgOp{Kind: "answer", Peer: p}, sgOp{Kind: "setlocal", Peer: p, A: -1},
 						sgOp{Kind: "createdc", Peer: p}, sgOp{Kind: "offer", Peer: p}, sgOp{Kind: "addtransceiver", Peer: p, A: r.Intn(2), B: r.Intn(4)}, sgOp{Kind: "offer", Peer: p})
 				} else {
 					// offer media + data, the foreign answer may reject sections (incl. the application one), then grow
